@@ -927,3 +927,62 @@ func genStarvedQueueWorld(t *rapid.T, o GenOpts) *Script {
 	}
 	return s
 }
+
+// GenC20OpScript (C20, operator clause): a Config built from fragments, up to two scheduling shards, an environment
+// (prometheus CRDs, NVIDIA cluster policy, fake GPU node, queue CRD) and a history of reconciles with API faults,
+// lost responses and crashes, configuration edits, shard edits/deletes, operand objects deleted behind the operator's back.
+func GenC20OpScript(t *rapid.T, thorough bool) *Script {
+	s := &Script{Prop: "C20", Profile: "operator", C20Op: &C20OpScript{}}
+	s.MapSeed = rapid.Uint64Range(1, 1<<62).Draw(t, "mapseed")
+	c := s.C20Op
+	cfgFrags := sortedKeys(opConfigFrags)
+	shFrags := sortedKeys(opShardFrags)
+	for i, n := 0, rapid.IntRange(0, 5).Draw(t, "nfrags"); i < n; i++ {
+		f := pick(t, "frag", cfgFrags...)
+		c.Frags = toggle(c.Frags, f)
+	}
+	shardNames := []string{"default", "pool-b"}
+	for i, n := 0, rapid.IntRange(0, 2).Draw(t, "nshards"); i < n; i++ {
+		sh := C20OpShard{Name: shardNames[i]}
+		for j, m := 0, rapid.IntRange(0, 3).Draw(t, "nshfrags"); j < m; j++ {
+			sh.Frags = toggle(sh.Frags, pick(t, "shfrag", shFrags...))
+		}
+		c.Shards = append(c.Shards, sh)
+	}
+	c.Env = C20OpEnv{PromCRDs: chance(t, "promcrds", 50), ClusterPolicy: pick(t, "cp", "", "", "cdi", "cdi-default", "nocdi"),
+		FakeGPUNode: chance(t, "fakegpu", 25), QueueCRD: pick(t, "qcrd", "", "plain", "conversion"), PreSecrets: chance(t, "presecrets", 65)}
+	targets := []string{"config", "config", "default", "pool-b"}
+	maxSteps := 10
+	if thorough {
+		maxSteps = 18
+	}
+	for i, n := 0, rapid.IntRange(1, maxSteps).Draw(t, "nsteps"); i < n; i++ {
+		var st C20OpStep
+		switch pick(t, "opkind", "reconcile", "reconcile", "reconcile", "reconcile", "edit_config", "edit_config", "shard_put", "shard_delete", "foreign_delete", "deploy_status", "env", "restart", "sleep") {
+		case "sleep":
+			st = C20OpStep{Kind: "sleep", N: pick(t, "days", 1, 8, 22, 31, 400)}
+		case "reconcile":
+			st = C20OpStep{Kind: "reconcile", Arg: pick(t, "target", targets...)}
+			if chance(t, "faulty", 55) {
+				st.N = rapid.IntRange(1, 90).Draw(t, "failat")
+				st.Fault = pick(t, "fault", "err", "lost", "crash", "crash")
+			}
+		case "edit_config":
+			st = C20OpStep{Kind: "edit_config", Arg: pick(t, "frag", cfgFrags...)}
+		case "shard_put":
+			st = C20OpStep{Kind: "shard_put", Arg: pick(t, "shard", shardNames...), Val: pick(t, "shfrag", append([]string{""}, shFrags...)...)}
+		case "shard_delete":
+			st = C20OpStep{Kind: "shard_delete", Arg: pick(t, "shard", shardNames...)}
+		case "foreign_delete":
+			st = C20OpStep{Kind: "foreign_delete", N: rapid.IntRange(0, 60).Draw(t, "victim")}
+		case "deploy_status":
+			st = C20OpStep{Kind: "deploy_status", N: rapid.IntRange(0, 10).Draw(t, "deploy"), Val: pick(t, "avail", "available", "unavailable")}
+		case "env":
+			st = C20OpStep{Kind: "env", Arg: pick(t, "envkind", "prom_crds", "fake_gpu_node", "cluster_policy"), Val: pick(t, "cp", "", "cdi", "cdi-default", "nocdi")}
+		case "restart":
+			st = C20OpStep{Kind: "restart"}
+		}
+		c.Steps = append(c.Steps, st)
+	}
+	return s
+}
